@@ -68,7 +68,11 @@ func C07_Create() {
 	verif.ObserveU64("next", next)
 }
 
+// rolesAfter is the role list the account holds now. The cell is materialised first: a call
+// that never touched the role list has not generated it, and "never looked" must not read as
+// "holds no roles".
 func rolesAfter(s *Scn, a *world.Account, tok []byte) [][]byte {
+	_, _ = a.RetrieveValue(roleKey(tok))
 	c := a.Find(roleKey(tok))
 	if c == nil {
 		return nil
@@ -386,6 +390,7 @@ func C08_MultiHopCrossShard() {
 func C08_HashMismatchRejected() {
 	o := hopOpt
 	o.Side = 2
+	o.VaryHash = true
 	var s *Scn
 	if verif.Bool("multi") {
 		o.MultiK = 1
